@@ -155,6 +155,20 @@ func init() {
 		}
 		return nil
 	})
+	// Possible: like Reach, but a label that no path can satisfy is a VIOLATION ("impossible"):
+	// the solver has shown that, for every input / random outcome / schedule within the bounds,
+	// the stated event cannot happen (used for "can be selected", "is eventually reachable").
+	reg(rtPkg+"Possible", func(in *Interp, fr *frame, args []value) value {
+		label := in.argStr(args[0])
+		if _, ok := in.h.PossDecl[label]; !ok {
+			m := map[string]uint64{}
+			if r, vals := in.check(); r == Sat {
+				m = in.modelFrom(vals)
+			}
+			in.h.PossDecl[label] = m
+		}
+		return intrinsics[rtPkg+"Reach"](in, fr, args)
+	})
 	reg(rtPkg+"Observe", func(in *Interp, fr *frame, args []value) value {
 		tag := in.argStr(args[0])
 		in.observeVal(tag, args[1])
